@@ -237,8 +237,12 @@ def run(rep, tier):
     sign = {}
     for nm, arg in (("-", symex.some(T.K(32, ord("-")))), ("+", symex.some(T.K(32, ord("+")))), ("none", symex.NONE)):
         outs = [v for v, st in (clo(sign_c[0], arg) if len(sign_c) == 1 else []) if st.feasible]
-        sign[nm] = T.sval(outs[0]) if len(outs) == 1 and T.is_k(outs[0]) else None
-    rep.ob(rg, "sign", sign == {"-": -1, "+": 1, "none": 1}, "sign closure of the integer parser", expected={"-": -1, "+": 1, "none": 1}, found=sign)
+        sign[nm] = outs[0] if len(outs) == 1 and T.is_k(outs[0]) else None
+    # whatever encodes the sign (a factor -1 / 1, a flag): '+' and no sign mean the same, '-' something else;
+    # what it does to the magnitude is the `combine` obligation below
+    sign_ok = None not in sign.values() and sign["+"] == sign["none"] and sign["-"] != sign["+"]
+    sign_shown = {k: (T.sval(v) if v is not None else None) for k, v in sign.items()}
+    rep.ob(rg, "sign", sign_ok, "sign closure of the integer parser", expected="'+' and no sign give one value, '-' another", found=sign_shown)
     radix = [strip(n["args"][1]).get("v") for n in calls_in(fam_int) if (callee_path(n) or "").endswith("<impl u64>::from_str_radix")]
     rep.ob(rg, "hex-radix", radix == [16], "radix of the `0x` branch", expected=[16], found=radix)
     cast_c = [q for q in fam_int if "{closure" in q and param_tys(q)[-1:] == ["u64"]]
@@ -250,10 +254,16 @@ def run(rep, tier):
         return [((n.get("callee") or {}).get("generics") or n.get("generics") or [n.get("ty")])[0] for n in calls_in(paths) if (callee_path(n) or "").endswith("<impl str>::parse")]
     dec = parse_ty(fam_int)
     rep.ob(rg, "decimal", len(dec) == 1 and "i64" in str(dec[0]), "decimal branch parses an i64 with str::parse (radix 10)", expected="str::parse::<i64>", found=dec)
-    a, b = T.V("s", 64), T.V("x", 64)
-    comb_c = [q for q in fam_int if "{closure" in q and param_tys(q)[-1:] == ["(i64, i64)"]]
-    comb = clo(comb_c[0], ("struct", "tuple", "tuple", (("0", a), ("1", b)))) if len(comb_c) == 1 else []
-    rep.ob(rg, "combine", len(comb) == 1 and comb[0][0] == T.op("mul", 64, a, b), "value = sign.wrapping_mul(magnitude)", expected="s * x", found=[_sh(v) for v, _ in comb])
+    b = T.V("x", 64)
+    comb_c = [q for q in fam_int if "{closure" in q and re.match(r"^\(\w+, i64\)$", (param_tys(q)[-1:] or [""])[0] or "")]
+    negx = (T.op("mul", 64, T.K(64, -1), b), T.op("mul", 64, b, T.K(64, -1)), T.op("sub", 64, T.K(64, 0), b), T.neg(64, b))
+    comb_found, comb_ok = {}, len(comb_c) == 1 and sign_ok
+    for nm in ("-", "+", "none"):
+        res = [v for v, st in (clo(comb_c[0], ("struct", "tuple", "tuple", (("0", sign[nm]), ("1", b)))) if comb_ok or (len(comb_c) == 1 and sign[nm] is not None) else []) if st.feasible]
+        comb_found[nm] = [_sh(v) for v in res]
+        want = negx if nm == "-" else (b,)
+        comb_ok = comb_ok and len(res) == 1 and res[0] in want
+    rep.ob(rg, "combine", comb_ok, "value = magnitude, negated (wrapping) after '-'", expected={"-": "0 - x (wrapping)", "+": "x", "none": "x"}, found=comb_found)
     regp = parse_ty(fam_reg)
     rep.ob(rg, "register", len(regp) == 1 and "i64" in str(regp[0]), "register number parses as a decimal i64", expected="str::parse::<i64>", found=regp)
     lits = {}
